@@ -43,6 +43,15 @@ def x1_exit_condition(ctx) -> None:
         else:
             ctx.violation("X1", r, f"expand_verified returns `{norm(v)}` on a path where that very specification has not been found free of "
                           "expandable verified classes (the classes offered by a freshly expanded pack are never looked at)")
+    # inside the loop everything is read from the specification being re-examined, never from the original
+    loops = [w for w in walk_local(f) if isinstance(w, ast.While)]
+    for w in loops:
+        uses = [x for x in ast.walk(w) if isinstance(x, ast.Name) and x.id == "self"]
+        if uses:
+            ctx.violation("X1", C.stmt_of(uses[0]), f"`{norm(C.stmt_of(uses[0]))[:70]}` reads the *original* specification inside the expansion loop; the class being "
+                          "expanded may only exist in the specification produced by an earlier expansion")
+        else:
+            ctx.ok("X1", "the expansion loop reads only the specification it re-examines")
     # progress: the specification re-examined is the one just produced
     assigns = [n for n in walk_local(f) if isinstance(n, ast.Assign) and isinstance(n.value, ast.Call)
                and isinstance(n.value.func, ast.Attribute) and n.value.func.attr == "expand_comb_class"]
@@ -261,8 +270,11 @@ def x4_verified_stop_respects_flag(ctx) -> None:
                     n += 1
                     ctx.violation("X4", c, "a label is stopped because it is verified, regardless of self.expand_verified")
     m = P.need_method(S, "_expand_classes_for", own=True)
-    t = norm(m.node)
-    if "self.expand_verified or not self.ruledb.is_verified(label)" in t or "not self.ruledb.is_verified(label) or self.expand_verified" in t:
+    from ..core import pattern as PT
+    loops = [l for l in walk_local(m.node) if isinstance(l, ast.For) and norm(l.iter) == "self.classqueue" and isinstance(l.target, ast.Tuple)]
+    lab = norm(loops[0].target.elts[0]) if loops else "label"
+    if PT.find_all(m.node, "self.expand_verified or not self.ruledb.is_verified(_M_l)", {"_M_l": lab}) or \
+            PT.find_all(m.node, "not self.ruledb.is_verified(_M_l) or self.expand_verified", {"_M_l": lab}):
         ctx.ok("X4", "_expand_classes_for expands verified classes when expand_verified is on")
     else:
         ctx.violation("X4", m.node, "_expand_classes_for must expand a packet when `self.expand_verified or not is_verified(label)`", construct=f"{S}._expand_classes_for verified skip")
